@@ -29,101 +29,326 @@ SPEC_PATH = os.path.join(HERE, "primitive_specs.json")
 
 # property -> [(unit, what the property needs from it)]
 PRIMITIVES = {
-    "C01": [("module:lbry.blob[MAX_BLOB_SIZE,BLOBHASH_LENGTH]", "blob size limit (2 MiB) and hash length (96 hex digits)"), ("lbry.blob.writer.HashBlobWriter.closed", "a writer is closed when its buffer is gone or closed"),
-            ("lbry.blob.blob_file.is_valid_blobhash", "what a blob hash looks like"), ("lbry.blob.blob_file.AbstractBlob.get_is_verified", "verified == the event is set"),
-            ("lbry.blob.blob_file.AbstractBlob.write_blob", "direct (migration) write path"), ("lbry.blob.blob_file.AbstractBlob._reader_context", "reads require a verified blob"),
-            ("lbry.blob.blob_file.AbstractBlob.close", "closing a blob closes its writers"), ("lbry.blob.blob_file.AbstractBlob.delete", "delete clears length / verified / file"),
-            ("lbry.utils.get_lbry_hash_obj", "the LBRY hash is SHA-384")],
-    "C02": [("lbry.stream.descriptor.StreamDescriptor.old_sort_json", "legacy descriptor serialisation"), ("lbry.stream.descriptor.random_iv_generator", "16 random bytes per IV"),
-            ("lbry.stream.descriptor.format_sd_info", "descriptor dict layout"), ("lbry.stream.descriptor.read_bytes", "chunk reader"),
-            ("lbry.blob.blob_info.BlobInfo.__init__", "blob info fields"), ("lbry.blob.blob_file.AbstractBlob.decrypt", "a blob decrypts its own bytes"),
-            ("lbry.stream.descriptor.StreamDescriptor.calculate_old_sort_sd_hash", "legacy sd hash"), ("lbry.stream.descriptor.StreamDescriptor.length", "stream length = sum of blob lengths")],
-    "C03": [("lbry.wallet.transaction.Transaction.get_base_fee", "fee for the bytes without inputs/outputs"), ("lbry.wallet.transaction.Transaction.get_effective_input_sum", "inputs minus their spend fees"),
-            ("lbry.wallet.transaction.Transaction.get_total_output_sum", "outputs plus their fees"), ("lbry.wallet.transaction.InputOutput.get_fee", "fee = size × fee per byte"),
-            ("lbry.wallet.transaction.InputOutput.size", "serialised size"), ("lbry.wallet.transaction.Output.get_fee", "fee of an output (claims pay by name length)"),
-            ("lbry.wallet.transaction.Transaction.base_size", "size without inputs and outputs"), ("lbry.wallet.transaction.Transaction.size", "serialised size of the transaction"), ("lbry.wallet.transaction.Output.get_estimator", "estimator of an output"),
-            ("lbry.wallet.transaction.OutputEffectiveAmountEstimator.__lt__", "ordering of candidates by effective amount"), ("lbry.wallet.transaction.Transaction.fee", "fee = inputs − outputs"),
-            ("lbry.wallet.transaction.Transaction.input_sum", "sum of known input amounts"), ("lbry.wallet.transaction.Transaction.output_sum", "sum of output amounts"),
-            ("module:lbry.wallet.constants[TXO_TYPES]", "TXO type numbers (what is plain spendable value)"), ("lbry.wallet.account.AddressManager.get_or_create_usable_address", "where change goes")],
-    "C04": [("lbry.wallet.bip32.PrivateKey.sign", "ECDSA over double SHA-256"), ("lbry.wallet.bip32.PrivateKey.sign_compact", "compact channel signatures"),
-            ("lbry.wallet.bip32.PublicKey.from_compressed", "channel key from compressed bytes"), ("lbry.wallet.ledger.Ledger.get_private_key_for_address", "key lookup by address"),
-            ("lbry.schema.base.Signable.to_message_bytes", "what a channel signs"), ("lbry.wallet.transaction.Output.is_signed_by", "claim validation entry point"),
-            ("lbry.wallet.transaction.Transaction._serialize_outputs", "outputs block of the preimage")],
-    "C05": [("module*:lbry.wallet.bcd_data_stream", "every read/write primitive of the wire stream"), ("module*:lbry.wallet.hash", "transaction references: id ↔ hash, null hash"),
-            ("lbry.wallet.transaction.Transaction._serialize_outputs", "outputs block"), ("lbry.wallet.transaction.Output.deserialize_from", "output reader"),
-            ("lbry.wallet.transaction.Output.serialize_to", "output writer"), ("lbry.wallet.transaction.Input.deserialize_from", "input reader"),
-            ("lbry.wallet.transaction.Transaction.raw_sans_segwit", "bytes the txid is computed from"), ("lbry.wallet.transaction.TXORef.id", "outpoint id"), ("lbry.wallet.transaction.TXORef.hash", "outpoint hash")],
-    "C06": [("module*:lbry.crypto.hash", "hash primitives"), ("module*:lbry.crypto.util", "integer ↔ bytes"), ("lbry.crypto.base58.Base58.char_value", "digit value of a Base58 character"),
-            ("class:lbry.crypto.base58.Base58", "alphabet"), ("lbry.wallet.bip32._KeyBase.identifier", "hash160 of the public key"), ("lbry.wallet.bip32._KeyBase.fingerprint", "first 4 bytes of the identifier"),
-            ("lbry.wallet.bip32._KeyBase.parent_fingerprint", "fingerprint of the parent (zeros for master)"), ("lbry.wallet.bip32._KeyBase.extended_key_string", "Base58Check of the extended key"),
-            ("lbry.wallet.bip32.PublicKey.address", "address of a key"), ("lbry.wallet.bip32.PrivateKey.address", "address of a key"),
-            ("lbry.wallet.account.AddressManager._query_addresses", "address listing for the gap"), ("lbry.wallet.database.Database.add_keys", "derived keys are stored with their index"),
-            ("lbry.wallet.ledger.Ledger.announce_addresses", "new addresses are subscribed"), ("lbry.wallet.mnemonic.is_cjk", "CJK ranges for whitespace removal"),
-            ("lbry.wallet.account.HierarchicalDeterministic.get_max_gap", "longest unused run"), ("lbry.wallet.account.SingleKey.ensure_address_gap", "single-key accounts")],
-    "C07": [("class:lbry.wallet.header.Headers", "header size, chunk size, genesis / target constants"), ("lbry.wallet.header.Headers._iterate_chunks", "batch → chunks at 1000-header boundaries"),
-            ("lbry.wallet.header.Headers._read", "byte offsets of stored headers"), ("lbry.wallet.header.Headers.get_raw_header", "bounds of a header read"), ("lbry.wallet.header.Headers.get", "header lookup"),
-            ("lbry.wallet.header.Headers.chunk_hash", "hash of a stored chunk"), ("lbry.wallet.header.Headers.header_hash_to_pow_hash", "LBRY proof-of-work hash"),
-            ("lbry.wallet.header.Headers.get_proof_of_work", "PoW hash as integer"), ("lbry.wallet.header.Headers.get_next_chunk_target", "chunk target"),
-            ("lbry.wallet.header.Headers.height", "height = number of headers − 1"), ("lbry.wallet.header.Headers.__len__", "number of stored headers"), ("lbry.wallet.header.Headers.has_header", "presence of a header"),
-            ("module*:lbry.wallet.util", "ArithUint256: nBits ↔ target, bit length, arithmetic and comparisons of targets"),
-            ("class:lbry.wallet.ledger.Ledger", "main-net ledger constants (genesis hash/bits, target timespan, checkpoints reference)")],
-    "C08": [("lbry.wallet.hash.TXRefImmutable.from_id", "txid → hash"), ("lbry.wallet.hash.TXRefImmutable.from_hash", "hash → txid"), ("lbry.wallet.ledger.Ledger.get_root_of_merkle_tree", "Merkle fold"),
-            ("lbry.wallet.header.Headers.get", "header at a height"), ("lbry.wallet.header.Headers.deserialize", "header fields incl. merkle root")],
-    "C09": [("lbry.wallet.ledger.Ledger.get_address_manager_for_address", "address → its chain"), ("lbry.wallet.ledger.Ledger.announce_addresses", "new addresses are subscribed"),
-            ("lbry.wallet.network.Network.subscribe_address", "subscription RPC"), ("lbry.wallet.database.Database._clean_txo_constraints_for_aggregation", "aggregation constraints"),
-            ("lbry.wallet.database.SQLiteMixin._insert_sql", "INSERT statement builder (ignore / replace)"), ("lbry.wallet.database.Database.get_address", "stored history of an address"),
-            ("lbry.wallet.database.Database.get_addresses", "address listing"), ("lbry.wallet.database.Database.select_addresses", "address query"),
-            ("lbry.wallet.ledger.Ledger.subscribe_accounts", "all accounts are subscribed"), ("lbry.wallet.ledger.Ledger.subscribe_account", "all chains of an account are subscribed"),
-            ("lbry.wallet.database.Database.get_utxos", "UTXO listing"), ("lbry.wallet.ledger.Ledger.maybe_has_channel_key", "channel key discovery"),
-            ("lbry.wallet.database.constraints_to_sql", "constraint → SQL"), ("lbry.wallet.database.query", "query builder")],
-    "C10": [("module*:lbry.blob_exchange.serialization", "wire messages of the blob exchange protocol: keys, to_dict, accessors, (de)serialisers"),
-            ("lbry.blob.blob_file.AbstractBlob.sendfile", "streaming a verified blob"), ("lbry.blob_exchange.client.BlobExchangeClientProtocol.download_blob", "per-download state reset"),
-            ("lbry.blob_exchange.client.BlobExchangeClientProtocol.connection_made", "transport adoption"), ("lbry.blob_exchange.client.BlobExchangeClientProtocol.connection_lost", "close on loss"),
-            ("lbry.blob_exchange.server.BlobServerProtocol.close", "server close"), ("lbry.blob_exchange.server.BlobServerProtocol.connection_lost", "server loss handling")],
-    "C11": [("lbry.dht.protocol.routing_table.KBucket.get_bad_or_unknown_peers", "probe candidates"), ("lbry.dht.protocol.routing_table.KBucket.remove_peer", "removal from a bucket"),
-            ("lbry.dht.protocol.routing_table.KBucket.get_peer", "lookup by node id"), ("lbry.dht.protocol.routing_table.KBucket.get_peers", "bucket listing"),
-            ("lbry.dht.protocol.routing_table.KBucket.__len__", "bucket size"), ("lbry.dht.protocol.routing_table.KBucket.__contains__", "membership"),
-            ("lbry.dht.protocol.routing_table.TreeRoutingTable.remove_peer", "removal from the table"), ("lbry.dht.protocol.routing_table.TreeRoutingTable.get_peer", "table lookup"),
-            ("module*:lbry.dht.protocol.distance", "XOR metric, closer-than test"),
-            ("module:lbry.dht.constants[HASH_CLASS,HASH_LENGTH,HASH_BITS]", "the 384-bit id space")],
-    "C12": [("lbry.dht.peer.PeerManager.peer_is_good", "goodness of a peer"), ("lbry.dht.peer.PeerManager.contact_triple_is_good", "goodness verdict from reply / request / failure records"),
-            ("lbry.dht.peer.PeerManager.update_contact_triple", "id ↔ endpoint mapping"), ("lbry.dht.peer.PeerManager.report_failure", "failure record"),
-            ("lbry.dht.peer.KademliaPeer.compact_address_tcp", "compact TCP address of a peer"), ("lbry.dht.peer.KademliaPeer.compact_ip", "compact IP"),
-            ("lbry.dht.peer.KademliaPeer.update_tcp_port", "port update on re-announce"), ("lbry.dht.peer.KademliaPeer.node_id", "node id accessor"),
-            ("lbry.dht.peer.is_valid_public_ipv4", "what a public address is"), ("lbry.dht.peer.decode_tcp_peer_from_compact_address", "compact address → peer"),
-            ("lbry.dht.protocol.protocol.KademliaRPC.compact_address", "own compact address"), ("lbry.dht.protocol.protocol.KademliaRPC.make_token", "store token"),
-            ("lbry.dht.protocol.protocol.KademliaRPC.verify_token", "store token check"), ("lbry.dht.protocol.data_store.DictDataStore.has_peers_for_blob", "presence of announcements"),
-            ("lbry.dht.protocol.data_store.DictDataStore.get_peers_for_blob", "served announcers"), ("lbry.dht.protocol.iterative_find.IterativeFinder._handle_probe_result", "probe result bookkeeping"),
-            ("lbry.dht.protocol.iterative_find.IterativeFinder._reset_closest", "closest-peer bookkeeping"), ("lbry.dht.protocol.iterative_find.IterativeFinder._add_active", "active set admission"),
-            ("lbry.dht.protocol.iterative_find.FindValueResponse.__init__", "value response parsing"), ("lbry.dht.protocol.iterative_find.FindNodeResponse.__init__", "node response parsing"),
-            ("lbry.dht.protocol.iterative_find.FindValueResponse.get_close_triples", "contacts of a value response"), ("lbry.dht.protocol.iterative_find.FindNodeResponse.get_close_triples", "contacts of a node response"),
-            ("module:lbry.dht.constants[HASH_CLASS,HASH_LENGTH,HASH_BITS,DATA_EXPIRATION]", "id space; announcements live 24 hours")],
-    "C13": [("lbry.wallet.account.Account.get_init_vector", "IV per secret"), ("lbry.wallet.wallet.Wallet.to_dict", "wallet → dict"), ("lbry.wallet.wallet.WalletStorage.read", "reading the wallet file"),
-            ("lbry.wallet.wallet.Wallet.is_encrypted", "encrypted status"), ("lbry.wallet.wallet.Wallet.decrypt", "switching encryption off"), ("lbry.crypto.crypt.scrypt", "sync payload KDF"),
-            ("lbry.crypto.crypt.better_aes_encrypt", "sync payload encryption"), ("lbry.crypto.crypt.better_aes_decrypt", "sync payload decryption")],
-    "C14": [("lbry.wallet.database.Database.reserve_outputs", "reservation UPDATE"), ("lbry.wallet.database.Database.release_outputs", "release = reserve False"),
-            ("lbry.wallet.database.Database.release_all_outputs", "release all"), ("lbry.wallet.ledger.Ledger.reserve_outputs", "ledger reservation"), ("lbry.wallet.ledger.Ledger.release_outputs", "ledger release"),
-            ("lbry.wallet.ledger.Ledger.release_tx", "release of a transaction's inputs"), ("lbry.wallet.ledger.Ledger.broadcast", "broadcast"), ("lbry.wallet.manager.WalletManager.broadcast_or_release", "manager hand-over"),
-            ("lbry.wallet.database.AIOSQLite.__run_transaction", "begin / commit / rollback"), ("lbry.wallet.database.Database.get_spendable_utxos", "sqlite chooser entry")],
-    "C15": [("lbry.wallet.script.Parser.consume_many_non_greedy", "PUSH_MANY consumption"), ("lbry.wallet.script.Script.from_source_with_template", "sub-script parsing"),
-            ("lbry.wallet.script.Script.tokens", "tokenisation of a script"), ("lbry.wallet.script.Script.template", "template accessor"), ("lbry.wallet.script.Script.values", "values accessor"),
-            ("lbry.wallet.script.is_push_data_opcode", "push opcode range"), ("lbry.wallet.script.is_push_data_token", "push token range"), ("lbry.wallet.script.is_small_integer", "small-integer range"),
-            ("lbry.wallet.script.push_small_integer", "small-integer writer"), ("lbry.wallet.script.read_small_integer", "small-integer reader"), ("lbry.wallet.script.tokenize", "token list"),
-            ("module:lbry.wallet.script", "opcode numbers and template opcode objects"), ("lbry.wallet.bcd_data_stream.BCDataStream.write_many", "multi-part write")],
-    "C16": [("lbry.schema.tags.normalize_tag", "tag normal form"), ("lbry.schema.tags.clean_tags", "tag list normal form"), ("lbry.schema.base.Signable.to_message_bytes", "message bytes"),
-            ("lbry.schema.base.Signable.clear_signature", "signature reset"), ("lbry.schema.base.Signable.is_signed", "signed status"), ("lbry.schema.url.normalize_name", "name normal form"),
-            ("lbry.schema.url.PathSegment.normalized", "normalised segment"), ("lbry.schema.url.PathSegment.to_dict", "segment dict"), ("lbry.schema.attrs.country_str_to_int", "region code"),
-            ("lbry.schema.attrs.country_int_to_str", "region code back"), ("lbry.schema.compat.from_types_v1", "legacy v1 migration")],
-    "C17": [("module*:lbry.dht.serialization.datagram", "datagram classes, field tables, compact addresses"), ("lbry.dht.peer.KademliaPeer.compact_address_tcp", "compact TCP address"),
-            ("lbry.dht.peer.KademliaPeer.compact_ip", "compact IP"), ("lbry.dht.peer.make_kademlia_peer", "peer construction"), ("lbry.dht.constants.generate_rpc_id", "rpc id length"),
-            ("module:lbry.dht.constants[HASH_CLASS,HASH_LENGTH,HASH_BITS,RPC_ID_LENGTH]", "id and rpc id lengths"), ("module*:lbry.dht.error", "DHT exception classes and their bases")],
-    "C18": [("lbry.extras.daemon.storage.SQLiteStorage.delete_blobs_from_db", "row deletion"), ("lbry.blob.blob_file.is_valid_blobhash", "what a blob file name looks like"),
-            ("lbry.blob.blob_file.AbstractBlob.get_is_verified", "verified status"), ("lbry.extras.daemon.storage.SQLiteStorage.get_all_blob_hashes", "row listing"),
-            ("lbry.blob.blob_file.BlobFile.is_writeable", "writable only without file"), ("lbry.blob.blob_file.BlobFile.delete", "file removal"), ("lbry.blob.blob_file.BlobFile.file_exists", "file presence")],
-    "C19": [("lbry.extras.daemon.storage.SQLiteStorage.update_blob_ownership", "is_mine update"), ("lbry.blob.disk_space_manager.DiskSpaceManager.get_free_space_mb", "free space per class"),
-            ("lbry.blob.disk_space_manager.DiskSpaceManager.cleaning_loop", "periodic cleanup"), ("lbry.extras.daemon.storage.SQLiteStorage.store_stream", "rows of a published / downloaded stream")],
-    "C20": [("module:lbry.wallet.constants[COIN,CENT]", "COIN = 10**8"), ("lbry.wallet.dewies.dict_values_to_lbc", "dict formatting")],
+    "C01": [
+        ("lbry.blob.blob_file.BlobBuffer._write_blob", "in-memory write"),
+        ("lbry.blob.blob_file.BlobBuffer._reader_context", "in-memory read requires a readable blob"),
+        ("lbry.blob.blob_file.BlobFile._reader_context", "file read"),
+        ("lbry.blob.blob_file.AbstractBlob.__init__", "initial state: no writers, not verified, not writing"),
+        ("lbry.blob.blob_file.AbstractBlob.reader_context", "reads require a readable (verified) blob"),
+        ("lbry.blob.blob_manager.BlobManager.blob_completed", "what is recorded when a blob completes"),
+        ("lbry.blob.blob_manager.BlobManager.delete_blob", "deleting through the manager"),
+        ("lbry.blob.writer.HashBlobWriter.__del__", "writer clean-up"),
+        ("module:lbry.blob[MAX_BLOB_SIZE,BLOBHASH_LENGTH]", "blob size limit (2 MiB) and hash length (96 hex digits)"),
+        ("lbry.blob.writer.HashBlobWriter.closed", "a writer is closed when its buffer is gone or closed"),
+        ("lbry.blob.blob_file.is_valid_blobhash", "what a blob hash looks like"),
+        ("lbry.blob.blob_file.AbstractBlob.get_is_verified", "verified == the event is set"),
+        ("lbry.blob.blob_file.AbstractBlob.write_blob", "direct (migration) write path"),
+        ("lbry.blob.blob_file.AbstractBlob._reader_context", "reads require a verified blob"),
+        ("lbry.blob.blob_file.AbstractBlob.close", "closing a blob closes its writers"),
+        ("lbry.blob.blob_file.AbstractBlob.delete", "delete clears length / verified / file"),
+        ("lbry.utils.get_lbry_hash_obj", "the LBRY hash is SHA-384"),
+    ],
+    "C02": [
+        ("lbry.stream.descriptor.StreamDescriptor.old_sort_json", "legacy descriptor serialisation"),
+        ("lbry.stream.descriptor.random_iv_generator", "16 random bytes per IV"),
+        ("lbry.stream.descriptor.format_sd_info", "descriptor dict layout"),
+        ("lbry.stream.descriptor.read_bytes", "chunk reader"),
+        ("lbry.blob.blob_info.BlobInfo.__init__", "blob info fields"),
+        ("lbry.blob.blob_file.AbstractBlob.decrypt", "a blob decrypts its own bytes"),
+        ("lbry.stream.descriptor.StreamDescriptor.calculate_old_sort_sd_hash", "legacy sd hash"),
+        ("lbry.stream.descriptor.StreamDescriptor.length", "stream length = sum of blob lengths"),
+    ],
+    "C03": [
+        ("@C14", "reservation and release machinery"),
+        ("module*:lbry.wallet.hash", "transaction references of database rows: id, hash and height"),
+        ("lbry.wallet.database.constraints_to_sql", "constraint → SQL (is_reserved = False must reach the query)"),
+        ("lbry.wallet.database.query", "query builder"),
+        ("lbry.wallet.database.Database.select_txos", "the UTXO query"),
+        ("lbry.wallet.database.Database.get_txos", "rows → outputs"),
+        ("lbry.wallet.database.Database.get_utxos", "unspent outputs"),
+        ("lbry.wallet.ledger.Ledger.get_utxos", "ledger UTXO listing"),
+        ("lbry.wallet.account.Account.get_utxos", "account UTXO listing"),
+        ("lbry.wallet.transaction.Transaction.get_base_fee", "fee for the bytes without inputs/outputs"),
+        ("lbry.wallet.transaction.Transaction.get_effective_input_sum", "inputs minus their spend fees"),
+        ("lbry.wallet.transaction.Transaction.get_total_output_sum", "outputs plus their fees"),
+        ("lbry.wallet.transaction.InputOutput.get_fee", "fee = size × fee per byte"),
+        ("lbry.wallet.transaction.InputOutput.size", "serialised size"),
+        ("lbry.wallet.transaction.Output.get_fee", "fee of an output (claims pay by name length)"),
+        ("lbry.wallet.transaction.Transaction.base_size", "size without inputs and outputs"),
+        ("lbry.wallet.transaction.Transaction.size", "serialised size of the transaction"),
+        ("lbry.wallet.transaction.Output.get_estimator", "estimator of an output"),
+        ("lbry.wallet.transaction.OutputEffectiveAmountEstimator.__lt__", "ordering of candidates by effective amount"),
+        ("lbry.wallet.transaction.Transaction.fee", "fee = inputs − outputs"),
+        ("lbry.wallet.transaction.Transaction.input_sum", "sum of known input amounts"),
+        ("lbry.wallet.transaction.Transaction.output_sum", "sum of output amounts"),
+        ("module:lbry.wallet.constants[TXO_TYPES]", "TXO type numbers (what is plain spendable value)"),
+        ("lbry.wallet.account.AddressManager.get_or_create_usable_address", "where change goes"),
+    ],
+    "C04": [
+        ("lbry.wallet.transaction.Output.get_address", "address a legacy signature commits to"),
+        ("lbry.wallet.bip32.PrivateKey.sign", "ECDSA over double SHA-256"),
+        ("lbry.wallet.bip32.PrivateKey.sign_compact", "compact channel signatures"),
+        ("lbry.wallet.bip32.PublicKey.from_compressed", "channel key from compressed bytes"),
+        ("lbry.wallet.ledger.Ledger.get_private_key_for_address", "key lookup by address"),
+        ("lbry.schema.base.Signable.to_message_bytes", "what a channel signs"),
+        ("lbry.wallet.transaction.Output.is_signed_by", "claim validation entry point"),
+        ("lbry.wallet.transaction.Transaction._serialize_outputs", "outputs block of the preimage"),
+    ],
+    "C05": [
+        ("module*:lbry.wallet.bcd_data_stream", "every read/write primitive of the wire stream"),
+        ("module*:lbry.wallet.hash", "transaction references: id ↔ hash, null hash"),
+        ("lbry.wallet.transaction.Transaction._serialize_outputs", "outputs block"),
+        ("lbry.wallet.transaction.Output.deserialize_from", "output reader"),
+        ("lbry.wallet.transaction.Output.serialize_to", "output writer"),
+        ("lbry.wallet.transaction.Input.deserialize_from", "input reader"),
+        ("lbry.wallet.transaction.Transaction.raw_sans_segwit", "bytes the txid is computed from"),
+        ("lbry.wallet.transaction.TXORef.id", "outpoint id"),
+        ("lbry.wallet.transaction.TXORef.hash", "outpoint hash"),
+    ],
+    "C06": [
+        ("module*:lbry.crypto.hash", "hash primitives"),
+        ("module*:lbry.crypto.util", "integer ↔ bytes"),
+        ("lbry.crypto.base58.Base58.char_value", "digit value of a Base58 character"),
+        ("class:lbry.crypto.base58.Base58", "alphabet"),
+        ("lbry.wallet.bip32._KeyBase.identifier", "hash160 of the public key"),
+        ("lbry.wallet.bip32._KeyBase.fingerprint", "first 4 bytes of the identifier"),
+        ("lbry.wallet.bip32._KeyBase.parent_fingerprint", "fingerprint of the parent (zeros for master)"),
+        ("lbry.wallet.bip32._KeyBase.extended_key_string", "Base58Check of the extended key"),
+        ("lbry.wallet.bip32.PublicKey.address", "address of a key"),
+        ("lbry.wallet.bip32.PrivateKey.address", "address of a key"),
+        ("lbry.wallet.account.AddressManager._query_addresses", "address listing for the gap"),
+        ("lbry.wallet.database.Database.add_keys", "derived keys are stored with their index"),
+        ("lbry.wallet.ledger.Ledger.announce_addresses", "new addresses are subscribed"),
+        ("lbry.wallet.mnemonic.is_cjk", "CJK ranges for whitespace removal"),
+        ("lbry.wallet.account.HierarchicalDeterministic.get_max_gap", "longest unused run"),
+        ("lbry.wallet.account.SingleKey.ensure_address_gap", "single-key accounts"),
+    ],
+    "C07": [
+        ("class:lbry.wallet.header.Headers", "header size, chunk size, genesis / target constants"),
+        ("lbry.wallet.header.Headers._iterate_chunks", "batch → chunks at 1000-header boundaries"),
+        ("lbry.wallet.header.Headers._read", "byte offsets of stored headers"),
+        ("lbry.wallet.header.Headers.get_raw_header", "bounds of a header read"),
+        ("lbry.wallet.header.Headers.get", "header lookup"),
+        ("lbry.wallet.header.Headers.chunk_hash", "hash of a stored chunk"),
+        ("lbry.wallet.header.Headers.header_hash_to_pow_hash", "LBRY proof-of-work hash"),
+        ("lbry.wallet.header.Headers.get_proof_of_work", "PoW hash as integer"),
+        ("lbry.wallet.header.Headers.get_next_chunk_target", "chunk target"),
+        ("lbry.wallet.header.Headers.height", "height = number of headers − 1"),
+        ("lbry.wallet.header.Headers.__len__", "number of stored headers"),
+        ("lbry.wallet.header.Headers.has_header", "presence of a header"),
+        ("module*:lbry.wallet.util", "ArithUint256: nBits ↔ target, bit length, arithmetic and comparisons of targets"),
+        ("class:lbry.wallet.ledger.Ledger", "main-net ledger constants (genesis hash/bits, target timespan, checkpoints reference)"),
+    ],
+    "C08": [
+        ("lbry.wallet.transaction.Input.deserialize_from", "input reader (the id of a segwit transaction is computed from a re-serialisation)"),
+        ("lbry.wallet.transaction.Input.__init__", "input fields"),
+        ("lbry.wallet.header.Headers.get_all_missing_headers", "which chunks still have to be fetched"),
+        ("lbry.wallet.header.Headers.has_header", "presence of a header"),
+        ("lbry.wallet.header.Headers.ensure_chunk_at", "a header is fetched before it is used"),
+        ("lbry.wallet.hash.TXRefImmutable.from_id", "txid → hash"),
+        ("lbry.wallet.hash.TXRefImmutable.from_hash", "hash → txid"),
+        ("lbry.wallet.ledger.Ledger.get_root_of_merkle_tree", "Merkle fold"),
+        ("lbry.wallet.header.Headers.get", "header at a height"),
+        ("lbry.wallet.header.Headers.deserialize", "header fields incl. merkle root"),
+    ],
+    "C09": [
+        ("module*:lbry.wallet.hash", "transaction references"),
+        ("lbry.wallet.database.Database.select_txos", "the TXO query incl. its joins"),
+        ("lbry.wallet.database.Database.get_txos", "rows → outputs"),
+        ("lbry.wallet.database.Database.get_txo_count", "count query"),
+        ("lbry.wallet.database.Database.get_txo_sum", "sum query"),
+        ("lbry.wallet.database.Database.get_balance", "balance = sum of unspent"),
+        ("lbry.wallet.database.Database.get_detailed_balance", "claims / supports / tips reported apart"),
+        ("class:lbry.wallet.script.OutputScript", "output templates and their names (what is a claim / support)"),
+        ("lbry.wallet.script.OutputScript.is_support_claim", "support classification"),
+        ("lbry.wallet.script.OutputScript.is_support_claim_data", "support-with-data classification"),
+        ("lbry.wallet.script.OutputScript.is_claim_involved", "claim involvement"),
+        ("lbry.wallet.transaction.Output.is_support", "support outputs"),
+        ("lbry.wallet.transaction.Output.is_claim", "claim outputs"),
+        ("lbry.wallet.ledger.Ledger.get_address_manager_for_address", "address → its chain"),
+        ("lbry.wallet.ledger.Ledger.announce_addresses", "new addresses are subscribed"),
+        ("lbry.wallet.network.Network.subscribe_address", "subscription RPC"),
+        ("lbry.wallet.database.Database._clean_txo_constraints_for_aggregation", "aggregation constraints"),
+        ("lbry.wallet.database.SQLiteMixin._insert_sql", "INSERT statement builder (ignore / replace)"),
+        ("lbry.wallet.database.Database.get_address", "stored history of an address"),
+        ("lbry.wallet.database.Database.get_addresses", "address listing"),
+        ("lbry.wallet.database.Database.select_addresses", "address query"),
+        ("lbry.wallet.ledger.Ledger.subscribe_accounts", "all accounts are subscribed"),
+        ("lbry.wallet.ledger.Ledger.subscribe_account", "all chains of an account are subscribed"),
+        ("lbry.wallet.database.Database.get_utxos", "UTXO listing"),
+        ("lbry.wallet.ledger.Ledger.maybe_has_channel_key", "channel key discovery"),
+        ("lbry.wallet.database.constraints_to_sql", "constraint → SQL"),
+        ("lbry.wallet.database.query", "query builder"),
+    ],
+    "C10": [
+        ("module*:lbry.blob_exchange.serialization", "wire messages of the blob exchange protocol: keys, to_dict, accessors, (de)serialisers"),
+        ("lbry.blob.blob_file.AbstractBlob.sendfile", "streaming a verified blob"),
+        ("lbry.blob_exchange.client.BlobExchangeClientProtocol.download_blob", "per-download state reset"),
+        ("lbry.blob_exchange.client.BlobExchangeClientProtocol.connection_made", "transport adoption"),
+        ("lbry.blob_exchange.client.BlobExchangeClientProtocol.connection_lost", "close on loss"),
+        ("lbry.blob_exchange.server.BlobServerProtocol.close", "server close"),
+        ("lbry.blob_exchange.server.BlobServerProtocol.connection_lost", "server loss handling"),
+    ],
+    "C11": [
+        ("lbry.dht.protocol.routing_table.KBucket.get_bad_or_unknown_peers", "probe candidates"),
+        ("lbry.dht.protocol.routing_table.KBucket.remove_peer", "removal from a bucket"),
+        ("lbry.dht.protocol.routing_table.KBucket.get_peer", "lookup by node id"),
+        ("lbry.dht.protocol.routing_table.KBucket.get_peers", "bucket listing"),
+        ("lbry.dht.protocol.routing_table.KBucket.__len__", "bucket size"),
+        ("lbry.dht.protocol.routing_table.KBucket.__contains__", "membership"),
+        ("lbry.dht.protocol.routing_table.TreeRoutingTable.remove_peer", "removal from the table"),
+        ("lbry.dht.protocol.routing_table.TreeRoutingTable.get_peer", "table lookup"),
+        ("module*:lbry.dht.protocol.distance", "XOR metric, closer-than test"),
+        ("module:lbry.dht.constants[HASH_CLASS,HASH_LENGTH,HASH_BITS]", "the 384-bit id space"),
+    ],
+    "C12": [
+        ("module*:lbry.dht.error", "DHT exception classes and their bases"),
+        ("lbry.dht.peer.PeerManager.peer_is_good", "goodness of a peer"),
+        ("lbry.dht.peer.PeerManager.contact_triple_is_good", "goodness verdict from reply / request / failure records"),
+        ("lbry.dht.peer.PeerManager.update_contact_triple", "id ↔ endpoint mapping"),
+        ("lbry.dht.peer.PeerManager.report_failure", "failure record"),
+        ("lbry.dht.peer.KademliaPeer.compact_address_tcp", "compact TCP address of a peer"),
+        ("lbry.dht.peer.KademliaPeer.compact_ip", "compact IP"),
+        ("lbry.dht.peer.KademliaPeer.update_tcp_port", "port update on re-announce"),
+        ("lbry.dht.peer.KademliaPeer.node_id", "node id accessor"),
+        ("lbry.dht.peer.is_valid_public_ipv4", "what a public address is"),
+        ("lbry.dht.peer.decode_tcp_peer_from_compact_address", "compact address → peer"),
+        ("lbry.dht.protocol.protocol.KademliaRPC.compact_address", "own compact address"),
+        ("lbry.dht.protocol.protocol.KademliaRPC.make_token", "store token"),
+        ("lbry.dht.protocol.protocol.KademliaRPC.verify_token", "store token check"),
+        ("lbry.dht.protocol.data_store.DictDataStore.has_peers_for_blob", "presence of announcements"),
+        ("lbry.dht.protocol.data_store.DictDataStore.get_peers_for_blob", "served announcers"),
+        ("lbry.dht.protocol.iterative_find.IterativeFinder._handle_probe_result", "probe result bookkeeping"),
+        ("lbry.dht.protocol.iterative_find.IterativeFinder._reset_closest", "closest-peer bookkeeping"),
+        ("lbry.dht.protocol.iterative_find.IterativeFinder._add_active", "active set admission"),
+        ("lbry.dht.protocol.iterative_find.FindValueResponse.__init__", "value response parsing"),
+        ("lbry.dht.protocol.iterative_find.FindNodeResponse.__init__", "node response parsing"),
+        ("lbry.dht.protocol.iterative_find.FindValueResponse.get_close_triples", "contacts of a value response"),
+        ("lbry.dht.protocol.iterative_find.FindNodeResponse.get_close_triples", "contacts of a node response"),
+        ("module:lbry.dht.constants[HASH_CLASS,HASH_LENGTH,HASH_BITS,DATA_EXPIRATION]", "id space; announcements live 24 hours"),
+    ],
+    "C13": [
+        ("lbry.wallet.account.Account.decrypt", "account decryption"),
+        ("lbry.wallet.account.Account.encrypt", "account encryption"),
+        ("lbry.wallet.account.Account._decrypt_seed", "seed decryption check"),
+        ("lbry.wallet.account.Account._decrypt_private_key_string", "key decryption check"),
+        ("lbry.wallet.account.Account.get_init_vector", "IV per secret"),
+        ("lbry.wallet.wallet.Wallet.to_dict", "wallet → dict"),
+        ("lbry.wallet.wallet.WalletStorage.read", "reading the wallet file"),
+        ("lbry.wallet.wallet.Wallet.is_encrypted", "encrypted status"),
+        ("lbry.wallet.wallet.Wallet.decrypt", "switching encryption off"),
+        ("lbry.crypto.crypt.scrypt", "sync payload KDF"),
+        ("lbry.crypto.crypt.better_aes_encrypt", "sync payload encryption"),
+        ("lbry.crypto.crypt.better_aes_decrypt", "sync payload decryption"),
+    ],
+    "C14": [
+        ("module*:lbry.wallet.hash", "transaction references: the id reservations are keyed on"),
+        ("lbry.wallet.database.constraints_to_sql", "constraint → SQL"),
+        ("lbry.wallet.database.Database.reserve_outputs", "reservation UPDATE"),
+        ("lbry.wallet.database.Database.release_outputs", "release = reserve False"),
+        ("lbry.wallet.database.Database.release_all_outputs", "release all"),
+        ("lbry.wallet.ledger.Ledger.reserve_outputs", "ledger reservation"),
+        ("lbry.wallet.ledger.Ledger.release_outputs", "ledger release"),
+        ('lbry.wallet.ledger.Ledger.release_tx', "release of a transaction's inputs"),
+        ("lbry.wallet.ledger.Ledger.broadcast", "broadcast"),
+        ("lbry.wallet.manager.WalletManager.broadcast_or_release", "manager hand-over"),
+        ("lbry.wallet.database.AIOSQLite.__run_transaction", "begin / commit / rollback"),
+        ("lbry.wallet.database.Database.get_spendable_utxos", "sqlite chooser entry"),
+    ],
+    "C15": [
+        ("class:lbry.wallet.script.InputScript", "input templates and their matching order"),
+        ("class:lbry.wallet.script.OutputScript", "output templates, names and matching order"),
+        ("lbry.schema.base.Signable.__len__", "len(payload) == len(bytes(payload))"),
+        ("lbry.schema.base.Signable.__bytes__", "payload bytes"),
+        ("lbry.schema.base.Signable.to_bytes", "payload layout"),
+        ("lbry.wallet.script.OutputScript.is_support_claim", "support classification"),
+        ("lbry.wallet.script.OutputScript.is_support_claim_data", "support-with-data classification"),
+        ("lbry.wallet.script.Parser.consume_many_non_greedy", "PUSH_MANY consumption"),
+        ("lbry.wallet.script.Script.from_source_with_template", "sub-script parsing"),
+        ("lbry.wallet.script.Script.tokens", "tokenisation of a script"),
+        ("lbry.wallet.script.Script.template", "template accessor"),
+        ("lbry.wallet.script.Script.values", "values accessor"),
+        ("lbry.wallet.script.is_push_data_opcode", "push opcode range"),
+        ("lbry.wallet.script.is_push_data_token", "push token range"),
+        ("lbry.wallet.script.is_small_integer", "small-integer range"),
+        ("lbry.wallet.script.push_small_integer", "small-integer writer"),
+        ("lbry.wallet.script.read_small_integer", "small-integer reader"),
+        ("lbry.wallet.script.tokenize", "token list"),
+        ("module:lbry.wallet.script", "opcode numbers and template opcode objects"),
+        ("lbry.wallet.bcd_data_stream.BCDataStream.write_many", "multi-part write"),
+    ],
+    "C16": [
+        ("module*:lbry.schema.compat", "legacy JSON / v1 migration"),
+        ("lbry.schema.attrs.Language.langtag", "language tag accessor"),
+        ("lbry.schema.tags.normalize_tag", "tag normal form"),
+        ("lbry.schema.tags.clean_tags", "tag list normal form"),
+        ("lbry.schema.base.Signable.to_message_bytes", "message bytes"),
+        ("lbry.schema.base.Signable.clear_signature", "signature reset"),
+        ("lbry.schema.base.Signable.is_signed", "signed status"),
+        ("lbry.schema.url.normalize_name", "name normal form"),
+        ("lbry.schema.url.PathSegment.normalized", "normalised segment"),
+        ("lbry.schema.url.PathSegment.to_dict", "segment dict"),
+        ("lbry.schema.attrs.country_str_to_int", "region code"),
+        ("lbry.schema.attrs.country_int_to_str", "region code back"),
+        ("lbry.schema.compat.from_types_v1", "legacy v1 migration"),
+    ],
+    "C17": [
+        ("module*:lbry.dht.serialization.datagram", "datagram classes, field tables, compact addresses"),
+        ("lbry.dht.peer.KademliaPeer.compact_address_tcp", "compact TCP address"),
+        ("lbry.dht.peer.KademliaPeer.compact_ip", "compact IP"),
+        ("lbry.dht.peer.make_kademlia_peer", "peer construction"),
+        ("lbry.dht.constants.generate_rpc_id", "rpc id length"),
+        ("module:lbry.dht.constants[HASH_CLASS,HASH_LENGTH,HASH_BITS,RPC_ID_LENGTH]", "id and rpc id lengths"),
+        ("module*:lbry.dht.error", "DHT exception classes and their bases"),
+    ],
+    "C18": [
+        ("lbry.blob.blob_manager.BlobManager.stop", "stop closes blobs and EMPTIES the shared completed set"),
+        ("lbry.blob.blob_manager.BlobManager.__init__", "the completed set is shared with the DHT store"),
+        ("lbry.stream.stream_manager.StreamManager.recover_streams", "rebuilt streams: every present blob incl. the sd blob is re-checked"),
+        ("lbry.stream.stream_manager.StreamManager.recover_streams.<locals>.recover_stream", "which hashes are re-checked"),
+        ("lbry.extras.daemon.storage.SQLiteStorage.recover_streams", "rows of a recovered stream"),
+        ("lbry.blob.blob_file.BlobFile.__init__", "a present file of the right size is adopted: length and verified"),
+        ("lbry.extras.daemon.storage.SQLiteStorage.delete_blobs_from_db", "row deletion"),
+        ("lbry.blob.blob_file.is_valid_blobhash", "what a blob file name looks like"),
+        ("lbry.blob.blob_file.AbstractBlob.get_is_verified", "verified status"),
+        ("lbry.extras.daemon.storage.SQLiteStorage.get_all_blob_hashes", "row listing"),
+        ("lbry.blob.blob_file.BlobFile.is_writeable", "writable only without file"),
+        ("lbry.blob.blob_file.BlobFile.delete", "file removal"),
+        ("lbry.blob.blob_file.BlobFile.file_exists", "file presence"),
+    ],
+    "C19": [
+        ("lbry.conf.Setting.__set__", "a set value is stored (also when it equals the default)"),
+        ("lbry.conf.Setting.__get__", "value lookup order"),
+        ("lbry.conf.Setting.is_set", "whether a setting is set"),
+        ("lbry.stream.stream_manager.StreamManager.create", "published streams: sd blob marked is_mine"),
+        ("lbry.stream.managed_stream.ManagedStream.start", "one file row per stream"),
+        ("lbry.extras.daemon.storage.SQLiteStorage.file_exists", "file row lookup by sd hash"),
+        ("lbry.extras.daemon.storage.SQLiteStorage.get_stored_blobs", "candidates of a pass"),
+        ("lbry.extras.daemon.storage.SQLiteStorage.add_blobs", "blob rows incl. is_mine"),
+        ("lbry.extras.daemon.storage.SQLiteStorage.update_blob_ownership", "is_mine update"),
+        ("lbry.blob.disk_space_manager.DiskSpaceManager.get_free_space_mb", "free space per class"),
+        ("lbry.blob.disk_space_manager.DiskSpaceManager.cleaning_loop", "periodic cleanup"),
+        ("lbry.extras.daemon.storage.SQLiteStorage.store_stream", "rows of a published / downloaded stream"),
+    ],
+    "C20": [
+        ("module:lbry.wallet.constants[COIN,CENT]", "COIN = 10**8"),
+        ("lbry.wallet.dewies.dict_values_to_lbc", "dict formatting"),
+    ],
 }
+
+
+def rows_for(pid, _seen=None):
+    """the property's own rows plus those of the properties it builds on (`@Cxx` rows)"""
+    seen = _seen if _seen is not None else set()
+    out = []
+    for unit, why in PRIMITIVES.get(pid, []):
+        if unit.startswith("@"):
+            if unit[1:] not in seen:
+                seen.add(unit[1:])
+                out += [(u, f"{w} [{why}]") for u, w in rows_for(unit[1:], seen)]
+        elif unit not in {u for u, _ in out}:
+            out.append((unit, why))
+    return out
 
 
 class _Norm(ast.NodeTransformer):
@@ -435,7 +660,7 @@ def check(ctx):
     rule = f"{pid}-P/PRIMITIVE"
     ref = specs()
     n = 0
-    for unit, why in PRIMITIVES.get(pid, []):
+    for unit, why in rows_for(pid):
         try:
             units = expand_units(ctx.prog, unit)
         except Exception as e:       # the unit vanished: that is a finding about the tree, not a checker failure
@@ -460,7 +685,7 @@ def check(ctx):
             ctx.ob(rule, ok, site, f"`{uid.split('.')[-1] if kind == 'function' else uid}` still is its reference definition — {why}", detail=detail, key=f"{rule}|{uid}",
                    func=uid if kind == "function" else None)
     # units of frozen modules that disappeared
-    for unit, why in PRIMITIVES.get(pid, []):
+    for unit, why in rows_for(pid):
         if unit.startswith("module*:"):
             mn = unit[8:]
             try:
